@@ -204,7 +204,8 @@ class CallsMixin:
         st.bump_frontier('call')   # even side-effect free callees may allocate what they return
         for t in targets:
             self.havoc_target(st, t, 'mod')
-        self.havoc_boxed_pointees(st, args)
+        if not con.pure:
+            self.havoc_boxed_pointees(st, args)
         vals = []
         for k, rt in enumerate(rtypes):
             v = V.fresh_val(types, rt, 'ret_%s_%d' % (short.split('.')[-1], st.callcount))
